@@ -139,6 +139,7 @@ CHECKS["C17"] = dict(
 
 # Additions made while the checks were strengthened against seeded changes (see DESIGN.md section 6).
 ADDENDA = {
+    "C01": "Server level: the REAL server binary (srvmc re-executed as kyrodb_server main()) runs under kvshim kill mode on an empty directory while a client drives a 7-operation write history over gRPC (snapshot every 2 mutations, 300-byte rotation); for n = 1, 2, ... until a run survives, the process dies right before its n-th file-system call under the data directory (second pass: after writing half of it when it is a write); the real binary is then restarted on what is left and must serve the acknowledged operations (+ optionally the one in flight); it is also killed during that start-up before its k-th call for every k, and the next start-up must serve the same collection.",
     "C12": "Two large-member histories (dimension 64, 400-550 documents, with and without rotation: files of 100-250 KiB, several 64 KiB archive chunks) are backed up (full, incrementals across a snapshot, sibling incremental) and every backup restored by id and by point in time.",
     "C11": "18 value classes incl. a 300-byte string and two numeric literals longer than 32 bytes.",
     "C03": "The quick tier includes the capacity-3 configuration (index-full refusals incl. overwrite / update / delete at capacity, with and without a tombstone) and cosine with hnsw.disable_normalization_check = true.",
@@ -146,7 +147,7 @@ ADDENDA = {
     "C04": "Each history is run twice: reading after every step and 'quiet' (reads only after the last step, every length 2..depth), because a read scrubs the stale copy it finds; the alphabet includes empty-metadata bulk load / overwrite / replace. Every quiet history that contains an adversarial poke is replayed four more times with get_document_with_metadata / get_embedding_cache_aware / get_metadata / bulk_query as the FIRST reader of every id (the battery otherwise starts with query, which scrubs what it finds).",
     "C20": "A dedicated query-result-cache section enumerates all histories of depth 5 (6) over five distinct queries, boundary-crossing inserts, overwrite, delete and drain for capacity {1,2} x two metrics.",
     "C05": "Compaction family: from a full index with a tombstone in slot 0, an insert of a new id (tombstone compaction renumbers internal ids) races reads / delete / overwrite / metadata update of id 1 in both thread orders with <= 2 preemptions. Server level: Query (with embedding) and BulkQuery through the real in-process gRPC handlers x four writer programs x three initial states, every schedule with <= 2 (3) preemptions: the vector and the metadata of one response belong to the same write. The server-level slice also starts from the state where id 1 is absent and runs with and without authentication (64 programs).",
-    "C06": "Alphabet includes bulk loads that bypass the recent-write tier. Because a search that meets a stale mirror scrubs it, each history is replayed on three more fresh engines whose queries (k=1000 first) go through one entry point only (first-touch pass). Large-batch section: batch sizes 33, 71, chunk+1 and 3*chunk+7 (chunk = the cold tier's max(32, 8 x rayon threads) queries per lock hold) through TieredEngine and HnswBackend batch search; every item is sound for ITS query and carries the distances of a single search for it.",
+    "C06": "Alphabet includes bulk loads that bypass the recent-write tier. Because a search that meets a stale mirror scrubs it, each history is replayed on three more fresh engines whose queries (k=1000 first) go through one entry point only (first-touch pass). Large-batch section: batch sizes 33, 71, chunk+1 and 3*chunk+7 (chunk = the cold tier's max(32, 8 x rayon threads) queries per lock hold) through TieredEngine and HnswBackend batch search; every item is sound for ITS query and carries the distances of a single search for it. Concurrent slice (beyond the sequential quantifier): one searcher (knn_search, knn_search_batch, HnswBackend::knn_search, HnswBackend::knn_search_batch) x one writer whose insert / overwrite hits a full capacity-3 index with a tombstone in slot 0 and so runs tombstone compaction, every schedule with <= 2 (3) preemptions under ksched; every returned (document, distance) pair must be the true distance to a version of that document that existed during the race.",
     "C07": "Histories start from the empty state and from two populated states. Part 4: the store-after-invalidate race — one searcher x one or two writers from populated states, every schedule with <= 2 (3) preemptions under the ksched scheduler; after join a repeated search served from the cache must be a valid fresh top-k of the engine's canonical store.",
     "C08": "The catalogue has 24 operations incl. delete-by-filter / ids_for_metadata_filter through the index path and through the reference-matcher scan fallback, and delete by closure. Learned worlds carry the production access logger; the catalogue adds one predictor-training cycle (body of the training task's loop on the real objects), log_served_search_accesses and the non-forced flush.",
     "C09": "Tombstone-compaction family: a capacity-3 index that is full with a tombstone in slot 0, insert of a new id (runs compact_tombstones) racing delete / metadata update / overwrite / batch delete / snapshot in both thread orders with <= 2 preemptions; the live collection must equal the outcome of some serial order of the acknowledged writes, and strict recovery must reproduce it.",
